@@ -3,7 +3,8 @@ import ParryModel.C15.Model
 import ParryModel.C10.Model
 /-!
 # C16 model: `transformation/ear_clipping.rs` (`triangulate_ear_clipping`, observed through `TriMesh::from_polygon`)
-and `transformation/hertel_mehlhorn.rs` (`hertel_mehlhorn_idx`).
+and `transformation/hertel_mehlhorn.rs` (`hertel_mehlhorn_idx`, `hertel_mehlhorn`), `shape/convex_polygon.rs`
+(`ConvexPolygon::from_convex_polyline`), `shape/compound.rs` (`Compound::decompose_trimesh`).
 
 Literal transliteration.  Arrays are accessed with `getD`/`setIfInBounds`; theorem `C16.clip_inv` shows that every index the
 algorithm follows is in bounds, so the defaults are never read (the Rust `v[i]` cannot panic).
